@@ -398,3 +398,20 @@ package store
 //@   requires nonnil: a != nil
 //@   modifies heap
 //@   assert after store readers: the_readers_are_closed_from_a_private_copy_of_the_list: len(readers) == 0 || fresh(readers)
+
+// ---- an empty last segment is trimmed when its writer closes: a reader that waits in it is not in
+// ---- the index any more, so nothing would close it when the writer is replaced - it is invalidated
+// ---- with the segment (C05)
+//   trimReaderCloses  segments whose readers were closed by this call
+//@ func dataSetAof.closeReaders(self)
+//@   trusted abstract: closes the readers of one segment (each Close comes back to DelReader)
+//@   modifies heap
+//@ func dataSet.trimLastEmptyAof
+//@   arith int
+//@   properties C05
+//@   replay store_trimmedSegment
+//@   ghost var trimReaderCloses mathint = 0
+//@   requires nonnil: ds != nil
+//@   modifies heap, trimReaderCloses
+//@   set trimReaderCloses = trimReaderCloses + 1 at call closeReaders
+//@   ensures the_readers_of_a_trimmed_segment_are_invalidated: len(ds.aofSegs) < old(len(ds.aofSegs)) ==> trimReaderCloses == old(trimReaderCloses) + 1
